@@ -96,6 +96,25 @@ func genC02(t *rapid.T) c02Case {
 		}
 		return c
 	}
+	if rapid.IntRange(0, 7).Draw(t, "directed7") == 0 {
+		// a replica outside the ISR has caught up, the leader commits one or two
+		// more messages on its own while replication is stalled, and then asks
+		// for the replica to be added back; the leader fails
+		c.Steps = []c02Step{
+			{Op: "publish", N: rapid.IntRange(1, 3).Draw(t, "n0"), Policy: 2}, {Op: "settle"},
+			{Op: "crash", X: 2, Sel: 0}, {Op: "shrink", X: 2},
+			{Op: "crash", X: 1, Sel: 0}, {Op: "shrink", X: 1}, // ISR {a}
+			{Op: "publish", N: 1, Policy: 2}, {Op: "settle"},
+			{Op: "restart", X: 2}, {Op: "settle"}, // c has caught up
+			{Op: "hold"},
+			{Op: "publish", N: rapid.IntRange(1, 2).Draw(t, "behind"), Policy: 2}, // committed by a alone
+			{Op: "expand", X: 2},
+			{Op: "leader", X: 0, Sel: 0},
+			{Op: "publish", N: 1, Policy: 2}, {Op: "settle"},
+			{Op: "restart", X: 1}, {Op: "settle"},
+		}
+		return c
+	}
 	if rapid.IntRange(0, 6).Draw(t, "directed6") == 0 {
 		// a follower that lags in the metadata keeps fetching with the old
 		// leader epoch while a replica that lacks its uncommitted tail leads
